@@ -13,7 +13,7 @@ def one(d):
         for p in PROPS:
             r = subprocess.run(f"VERIF_NOEVIDENCE=1 {BIN} check -p {p} -repo {tmp}", shell=True, capture_output=True, text=True, cwd="/verif", timeout=600)
             if r.returncode != 0:
-                rules = sorted(set(re.findall(r"rule=(\S+) construct=(\S+)", r.stdout)))
+                rules = sorted(set(re.findall(r"^(?:VIOLATION|UNDECIDED)[^\n]*?rule=(\S+) construct=(\S+)", r.stdout, re.M)))
                 caught[p] = {"exit": r.returncode, "rules": [f"{a} {b}" for a, b in rules][:8]}
         meta["detected_by"] = caught
         json.dump(meta, open(f"{d}/meta.json", "w"), indent=1)
